@@ -117,12 +117,13 @@ PROPS = {
                                    "json.encoder_encodeRawMessage", "json.encoder_encodeJSONMarshaler", "json.decoder_decodeArray",
                                    "json.decoder_decodeRawMessage", "json.hasNullPrefix", "json.hasTruePrefix", "json.hasFalsePrefix"],
         allowed_native=["Enc.Lemmas.Json", "Lemmas.JsonScan", "Enc.Lemmas.JsonScan"],
-        main_theorem="Enc.Props.C05 (Valid = RFC 8259 recogniser)",
+        main_theorem="Enc.Props.C05.valid_eq_std (Valid = encoding/json.Valid = RFC 8259 with nesting <= 10000, for every byte string), deep_rejected, max_depth_accepted",
         rule="EXHAUSTIVE over a 26-symbol alphabet of JSON-significant byte classes: all strings of length <= 3 (quick) / 4 (thorough) "
              "plus random longer ones, each pushed through Valid and every syntax-only consumer (RawMessage encode, MarshalJSON "
              "output, RawMessage decode, skipped struct field, surplus array slot, nested skip, Decoder framing) and compared with "
              "encoding/json; generated documents with one-edit mutations; strings with a special byte at every offset 0..20 "
-             "(8/16-byte quote windows); nesting 9999/10000/10001; a sample through the Lean driver (impl = model = RFC grammar)",
+             "(8/16-byte quote windows); nesting 1..300000 (arrays, objects, mixed; 6,000,000 in the thorough tier) through Valid, Unmarshal into 7 target "
+             "types and the Decoder; a sample through the Lean driver (impl = model = RFC grammar with depth limit)",
         trusted_base=["encoding/json of the installed toolchain is the oracle for the composite consumers (called in-process)"],
         assumptions=[],
     ),
@@ -196,7 +197,7 @@ PROPS = {
                                    "json.constructStructType", "json.appendStructFields", "json.hasNullPrefix", "json.appendToLower", "json.foldRune",
                                    "json.skipSpaces", "json.appendRune", "json.appendCoerceInvalidUTF8", "json.internalParseFlags"],
         allowed_native=["Enc.Lemmas.Json", "Lemmas.Json"],
-        main_theorem="Enc.Props.C02 (integer scalar decoders: loops compute the decimal value or report overflow; surrogate/escape tables)",
+        main_theorem="Enc.Props.C02.unmarshalInt_eq, unmarshalString_eq (scalar decoders as coded = transcription of encoding/json literalStore / unquoteBytes, for every document)",
         rule="(a) scalar layer through the Lean driver: integer literals at every width boundary +-1, 19/20-digit values around the "
              "wrap-around points of value*10+x, leading zeros, floats into integers, random 64-bit magnitudes, into all ten integer "
              "types (model = implementation = transcription of encoding/json's literalStore); string literals with every escape, "
@@ -266,5 +267,28 @@ PROPS = {
         trusted_base=["addresses are observed with unsafe.StringData / SliceData; the Go garbage collector does not move heap objects"],
         assumptions=["the pool state machine is a hand-written abstraction of Marshal / Encoder.Encode; its tie to the code is the history test",
                      "sync.Pool may drop buffers at any time: modelled as an empty pool"],
+    ),
+    "C06": dict(
+        lean_modules=["Enc.Props.C06"],
+        variants=V_DEFAULT, areas=["json.encoder", "json.decoder", "json.Append", "json.Parse", "json.Marshal", "json.Unmarshal", "json.Valid", "json.Tokenizer",
+                                   "json.constructCodec", "json.constructCachedCodec", "json.inlined", "json.constructInlineValueEncodeFunc",
+                                   "json.constructRecursiveCodec", "json.extendSlice", "json.parse", "json.startDetectingCyclesAfter", "json.maxNestingDepth"],
+        allowed_native=["Enc.Lemmas.Json", "Lemmas.Json"],
+        main_theorem="Enc.Props.C06 (cycle detection: Marshal of every finite graph returns within T+|g| levels; error iff cyclic); Enc.Props.C05.deep_rejected (decoder nesting bound)",
+        rule="every case in a supervised child process (recoverable panic -> panic:, fatal fault / stack overflow / time-out -> fatal:). "
+             "(a) graphs of pointers / slices / maps (random cyclic and acyclic, chains of 1..2500 containers of every kind closed at the "
+             "start, middle, end or not at all) realised as Go values: Marshal returns an error iff the Lean cycle model does iff the "
+             "value is cyclic; 12 typed cycle shapes (struct pointer, interface, slice, map, array, recursive named slice/map/pointer "
+             "types) through Marshal/Append/Encoder vs encoding/json; recursive named types round trip; 27 pointer-shaped layouts "
+             "(one-element arrays, single-field structs, nested by value, func/chan) by value and by pointer vs encoding/json; "
+             "(b) type-directed totality: random types x values x {by value, by pointer} through Marshal, MarshalIndent, 8 Append flag "
+             "subsets, Encoder with indent; random target types (fresh or pre-populated) x documents (marshalled then edited, "
+             "damaged, truncated; arbitrary bytes) through Unmarshal, Parse with 3 flag sets, Decoder, by-value / nil / nil-pointer "
+             "targets, Valid and the Tokenizer with all accessors; (c) documents nested 2,000,000 deep through every decode entry point",
+        trusted_base=["the supervisor (process exit status, 20 s time-out, address-space limit) is the oracle for crashes"],
+        assumptions=["memory safety of the unsafe field/element addressing is observed, not proved: a layout error that neither crashes nor "
+                     "changes the output of any generated case is invisible",
+                     "acyclic values nested deeper than the goroutine stack allows (about a million levels) overflow the stack in Marshal as "
+                     "they do in encoding/json: recorded as known finding json-marshal-deep-acyclic"],
     ),
 }
